@@ -25,10 +25,15 @@ EXPLANATION = (
   " (INDEP) the first-child and last-child link updates are independent statements;"
   ' (PAIR-detach) every removal clears parent, sibling links and the document of the removed child; (REG-repoint) put_region re-points the elements that used the replaced region;'
   " (FIN-validate) every property's validate(), evaluated on SpecialValues.none and SpecialValues.normal, accepts the special value exactly when it is that property's TTML value;"
+  ' (TRAV-rec) every function that walks the tree by calling itself on the children reaches that child loop on every path (the three walkers that prune by design are tabled with the rules that decide their pruning);'
+  ' (LINT-l) no tuple / list / set display of the anchored modules lists the same computed component twice and no dict display repeats a key (a key or fingerprint built that way cannot tell apart what the missing component would have);'
+  ' (STATE-share) no assignment stores a container field of one object (a field the package updates in place) into a field of another object without copying it, so an in-place update of one object never changes another;'
+  " (ITEM-source) an object built once per item of an inner loop is filled only with values that derive from that item or do not vary with the loops, never with a value of the enclosing container standing where the item's own belongs;"
+  ' (FIN-links) push_child and remove_child, interpreted on explicit little heaps (1..4 children, removal at every position, one more push), leave the first / last / previous / next / parent fields describing one consistent doubly linked list and the removed child fully detached;'
 )
 RULE_TEXT = "one instance per element kind, link-field store, guard, mutator, store site, registry writer"
 UNDECIDED = ["arbitrary call histories as such (the rules are the per-operation preconditions, not the induction)",
-             "lengths / sibling-link agreement as runtime values", "copy_to and push_children as multi-element operations (not atomic by design)"]
+             "sibling-link agreement beyond the interpreted scenarios (lists of up to 4 children)", "copy_to and push_children as multi-element operations (not atomic by design)"]
 TRUSTED = ["content-model oracle written from doc/data_model.md", "class-hierarchy resolution of self/super calls"]
 
 LINK_OWNERS = {"ttconv.model:ContentElement.__init__", "ttconv.model:ContentElement.push_child", "ttconv.model:ContentElement.remove_child"}
@@ -297,6 +302,86 @@ def check_special_values(ctx):
   ctx.floor("FIN-validate", "validate() x special value evaluations", n, 40)
 
 
+def check_link_scenarios(ctx):
+  """FIN-links: push_child and remove_child, interpreted by rules/heapeval.py on explicit little heaps: after
+  pushing 1..4 children, removing the child at every position and pushing one more, the parent's first / last
+  fields and the children's previous / next / parent fields describe one consistent doubly linked list with
+  the expected members in the expected order, and the removed child is fully detached."""
+  from ..consteval import NotConst, Raised
+  from ..rules.heapeval import HeapEval, Obj
+  ix = ctx.ix
+  ce = ix.cls("ttconv.model:ContentElement")
+  ctx.unit(ce.module)
+  role = {}
+  for acc in ("first_child", "last_child", "next_sibling", "previous_sibling", "parent"):
+    m = ce.methods.get(acc)
+    rets = [r for r in own_nodes(m.node) if isinstance(r, ast.Return)] if m is not None else []
+    if len(rets) != 1 or not (isinstance(rets[0].value, ast.Attribute) and unparse(rets[0].value.value) == m.params[0]):
+      raise AnalysisError(f"ContentElement.{acc}: expected a single `return self.<field>` (the accessor names the link field)")
+    role[acc] = rets[0].value.attr
+  push, rem = ce.methods["push_child"], ce.methods["remove_child"]
+
+  def state(p, want):
+    """None when the heap is the list `want` under p, else a description of the first disagreement."""
+    F, L, N, P, U = (role[k] for k in ("first_child", "last_child", "next_sibling", "previous_sibling", "parent"))
+    fwd, cur = [], p.fields.get(F)
+    while cur is not None and len(fwd) < 10:
+      fwd.append(cur)
+      cur = cur.fields.get(N)
+    if [x.name for x in fwd] != [x.name for x in want]:
+      return f"children by {F}/{N} are {fwd}, expected {want}"
+    bwd, cur = [], p.fields.get(L)
+    while cur is not None and len(bwd) < 10:
+      bwd.append(cur)
+      cur = cur.fields.get(P)
+    if [x.name for x in reversed(bwd)] != [x.name for x in want]:
+      return f"children by {L}/{P} are {list(reversed(bwd))}, expected {want}"
+    for x in want:
+      if x.fields.get(U) is not p:
+        return f"{x}.{U} is {x.fields.get(U)}, expected {p}"
+    return None
+  problems = []
+  n = 0
+  try:
+    for size in range(1, 5):
+      for victim in range(size):
+        n += 1
+        he = HeapEval(ix, ce)
+        p = Obj("parent")
+        kids = [Obj(f"c{i}") for i in range(size)]
+        tag = f"{size} children, remove #{victim}"
+        try:
+          for i, k in enumerate(kids):
+            he.call(push, p, [k])
+            bad = state(p, kids[:i + 1])
+            if bad:
+              problems.append(f"after push #{i}: {bad}")
+              break
+          else:
+            v = kids[victim]
+            he.call(rem, p, [v])
+            rest = [k for k in kids if k is not v]
+            bad = state(p, rest)
+            if bad:
+              problems.append(f"{tag}: {bad}")
+            elif any(v.fields.get(role[k_]) is not None for k_ in ("next_sibling", "previous_sibling", "parent")):
+              problems.append(f"{tag}: the removed child keeps a link")
+            else:
+              d = Obj("d")
+              he.call(push, p, [d])
+              bad = state(p, rest + [d])
+              if bad:
+                problems.append(f"{tag}, then push: {bad}")
+        except Raised:
+          problems.append(f"{tag}: the operation raises")
+  except NotConst as e:
+    raise AnalysisError(f"push_child / remove_child leave the subset the heap evaluator interprets ({e})")
+  ctx.check(not problems, "FIN-links", f"{ce.qualname}|push_child / remove_child keep one consistent doubly linked child list", ctx.where(ce.module, rem.node),
+            f"{n} scenarios (1..4 children x removal position, then one more push) interpreted on explicit heaps",
+            "the link updates do not keep the child list consistent: " + "; ".join(problems[:2]) + f" ({len(problems)} of {n} scenarios fail)")
+  ctx.extra["finite_domain_evaluations"] = ctx.extra.get("finite_domain_evaluations", 0) + n
+
+
 def _is_registered_region_test(t) -> bool:
   """The test compares, by identity, the region handed in with what the document has registered (get_region(<id>) /
   the registry itself): only that establishes `the region referenced is the region registered under that id`."""
@@ -358,4 +443,6 @@ def run(ctx):
     ni += shape.check_independent_updates(ctx, ctx.ix.func(q))
   ctx.note(f"INDEP: {ni} if/elif chains in the link-update methods")
   check_special_values(ctx)
+  check_link_scenarios(ctx)
+  common.check_walkers(ctx, ["ttconv.model"])
   common.check_history_independence(ctx, ["ttconv.model", "ttconv.style_properties"])
